@@ -106,6 +106,7 @@ type tableSpec struct {
 	colW     []string // per column box, in order: the css width of the col or of its colgroup ("" = auto)
 	groups   []groupSpec
 	tags     []string
+	pageCSS  string // "" = one tall page of pageWidth; otherwise the @page rules of a paged document
 }
 
 func half(r *vlib.Rng, lo, hi int) float64 { return float64(r.Range(2*lo, 2*hi)) / 2 }
@@ -255,10 +256,217 @@ func genTable(r *vlib.Rng, forceFixed bool) tableSpec {
 	return t
 }
 
+
+// The excess-width stream: auto layout of a table whose specified width exceeds its max-content width, with the
+// columns drawn from the classes distributeExcessWidth tells apart (tables.go:1119-1292): unconstrained, constrained by
+// a px width (on the col element or on a cell), percentage, and -- crossed with those -- columns all of whose cells are
+// empty (max-content width 0).  2 in 3 tables have only constrained columns, so that groups 3, 4 and 5 are reached.
+func genExcessTable(r *vlib.Rng) tableSpec {
+	t := tableSpec{}
+	ncols := r.Range(1, 5)
+	allConstrained := r.Chance(2, 3)
+	kinds := make([]int, ncols) // 0 px width on <col>, 1 px width on the cells, 2 percentage, 3 nothing
+	empty := make([]bool, ncols)
+	anyCol := false
+	for j := range kinds {
+		if allConstrained {
+			kinds[j] = r.Intn(2)
+		} else {
+			kinds[j] = vlib.Pick(r, []int{0, 1, 1, 2, 3, 3})
+		}
+		empty[j] = r.Chance(1, 3)
+		if kinds[j] == 0 {
+			anyCol = true
+		}
+	}
+	colPx := make([]int, ncols)
+	for j := range colPx {
+		colPx[j] = vlib.Pick(r, []int{0, 0, 10, 20, 40, 50, 80, 120})
+	}
+	if anyCol {
+		var sb strings.Builder
+		for j, k := range kinds {
+			if k == 0 {
+				fmt.Fprintf(&sb, `<col style="width:%dpx">`, colPx[j])
+				t.colW = append(t.colW, fmt.Sprintf("%dpx", colPx[j]))
+			} else {
+				sb.WriteString(`<col>`)
+				t.colW = append(t.colW, "")
+			}
+		}
+		t.cols = sb.String()
+		t.tags = append(t.tags, "cols")
+	}
+	gs := groupSpec{tag: "tbody"}
+	for i, rows := 0, r.Range(1, 3); i < rows; i++ {
+		rs := rowSpec{}
+		for j := 0; j < ncols; j++ {
+			c := cellSpec{colspan: 1, rowspan: 1}
+			switch kinds[j] {
+			case 1:
+				c.width = fmt.Sprintf("%dpx", colPx[j])
+			case 2:
+				if i == 0 || r.Bool() {
+					c.width = fmt.Sprintf("%g%%", vlib.Pick(r, []float64{10, 20, 25, 50}))
+				}
+			}
+			if !empty[j] {
+				for k, n := 0, r.Range(1, 3); k < n; k++ {
+					c.words = append(c.words, r.Range(1, 5))
+				}
+				if r.Chance(1, 3) {
+					c.pad = [4]float64{half(r, 0, 4), half(r, 0, 4), half(r, 0, 4), half(r, 0, 4)}
+				}
+				if r.Chance(1, 4) {
+					c.border = float64(r.Range(0, 3))
+				}
+			}
+			rs.cells = append(rs.cells, c)
+		}
+		if r.Chance(1, 8) && len(rs.cells) > 0 {
+			rs.cells = rs.cells[:len(rs.cells)-1] // a short row
+		}
+		gs.rows = append(gs.rows, rs)
+	}
+	t.groups = []groupSpec{gs}
+	switch r.Intn(6) {
+	case 0:
+		t.width = fmt.Sprintf("%g%%", vlib.Pick(r, []float64{50, 75, 100}))
+	case 1:
+		t.width = fmt.Sprintf("%dpx", r.Range(0, 30)*10)
+	default:
+		t.width = fmt.Sprintf("%dpx", r.Range(30, 120)*10)
+	}
+	if r.Chance(2, 3) {
+		t.bsx, t.bsy = half(r, 0, 12), half(r, 0, 12)
+	}
+	t.collapse = r.Chance(1, 10)
+	t.tags = append(t.tags, "gen:excess-stream")
+	if allConstrained {
+		t.tags = append(t.tags, "gen:all-columns-constrained")
+	}
+	for j := range empty {
+		if empty[j] {
+			t.tags = append(t.tags, "gen:empty-column")
+			break
+		}
+	}
+	if strings.HasSuffix(t.width, "%") {
+		t.tags = append(t.tags, "width:%")
+	} else {
+		t.tags = append(t.tags, "width:px")
+	}
+	return t
+}
+
+// The paged stream: a table with many rows on short pages whose content boxes differ from page to page (:first /
+// :left / :right margins, another size for the first page), so that the table is split into one fragment per page,
+// each laid out against its own page.
+func genPagedTable(r *vlib.Rng) tableSpec {
+	t := tableSpec{}
+	pw, ph := r.Range(30, 80)*10, r.Range(12, 30)*10
+	var css strings.Builder
+	fmt.Fprintf(&css, "@page { size: %dpx %dpx; margin: %dpx }\n", pw, ph, r.Range(0, 3)*10)
+	switch r.Intn(6) {
+	case 0:
+		t.tags = append(t.tags, "pages:same-geometry")
+	case 1, 2:
+		fmt.Fprintf(&css, "@page :first { margin-left: %dpx }\n", r.Range(4, 15)*10)
+		t.tags = append(t.tags, "pages:first-margin")
+	case 3:
+		fmt.Fprintf(&css, "@page :left { margin-left: %dpx; margin-right: %dpx }\n@page :right { margin-left: %dpx }\n", r.Range(0, 12)*10, r.Range(0, 6)*10, r.Range(0, 12)*10)
+		t.tags = append(t.tags, "pages:left-right-margins")
+	case 4:
+		fmt.Fprintf(&css, "@page :first { size: %dpx %dpx }\n", r.Range(30, 80)*10, ph)
+		t.tags = append(t.tags, "pages:first-size")
+	default:
+		fmt.Fprintf(&css, "@page :first { margin-left: %dpx; margin-top: %dpx }\n@page :left { margin-left: %dpx }\n", r.Range(4, 15)*10, r.Range(0, 8)*10, r.Range(0, 9)*10)
+		t.tags = append(t.tags, "pages:first-and-left-margins")
+	}
+	t.pageCSS = css.String()
+	t.fixed = r.Chance(1, 4)
+	switch r.Intn(4) {
+	case 0:
+		t.width = ""
+	case 1:
+		t.width = fmt.Sprintf("%g%%", vlib.Pick(r, []float64{50, 75, 100, 40}))
+	default:
+		t.width = fmt.Sprintf("%dpx", r.Range(10, 28)*10)
+	}
+	if t.fixed && t.width == "" {
+		t.width = "200px"
+	}
+	if r.Chance(2, 3) {
+		t.bsx, t.bsy = half(r, 0, 8), half(r, 0, 8)
+	}
+	t.collapse = r.Chance(1, 8)
+	ncols := r.Range(1, 4)
+	var order []string
+	if r.Chance(1, 3) {
+		order = append(order, "thead")
+	}
+	order = append(order, "tbody")
+	if r.Chance(1, 4) {
+		order = append(order, "tbody")
+	}
+	if r.Chance(1, 4) {
+		order = append(order, "tfoot")
+	}
+	for _, tag := range order {
+		gs := groupSpec{tag: tag}
+		rows := r.Range(5, 14)
+		if tag != "tbody" {
+			rows = 1
+		}
+		for i := 0; i < rows; i++ {
+			rs := rowSpec{}
+			if r.Chance(1, 8) {
+				rs.height = fmt.Sprintf("%dpx", r.Range(2, 6)*10)
+			}
+			for j, cells := 0, r.Range(1, ncols); j < cells; j++ {
+				c := cellSpec{colspan: 1, rowspan: 1}
+				if r.Chance(1, 5) {
+					c.colspan = r.Range(1, 3)
+				}
+				if tag == "tbody" && r.Chance(1, 8) {
+					c.rowspan = 2
+				}
+				switch r.Intn(6) {
+				case 0:
+					c.width = fmt.Sprintf("%dpx", r.Range(0, 16)*5)
+				case 1:
+					c.width = fmt.Sprintf("%g%%", vlib.Pick(r, []float64{10, 20, 25, 50}))
+				}
+				if r.Chance(1, 3) {
+					c.pad = [4]float64{half(r, 0, 4), half(r, 0, 4), half(r, 0, 4), half(r, 0, 4)}
+				}
+				if r.Chance(1, 3) {
+					c.border = float64(r.Range(0, 3))
+				}
+				for k, n := 0, r.Range(0, 2); k < n; k++ {
+					c.words = append(c.words, r.Range(1, 4))
+				}
+				rs.cells = append(rs.cells, c)
+			}
+			gs.rows = append(gs.rows, rs)
+		}
+		t.groups = append(t.groups, gs)
+	}
+	t.tags = append(t.tags, "gen:paged-stream")
+	if t.fixed {
+		t.tags = append(t.tags, "table-layout:fixed")
+	}
+	return t
+}
+
 func (t tableSpec) html() string {
 	var sb strings.Builder
 	sb.WriteString(`<html><head><style>`)
-	fmt.Fprintf(&sb, "@page { size: %dpx 20000px; margin: 0 }\n", pageWidth)
+	if t.pageCSS != "" {
+		sb.WriteString(t.pageCSS)
+	} else {
+		fmt.Fprintf(&sb, "@page { size: %dpx 20000px; margin: 0 }\n", pageWidth)
+	}
 	sb.WriteString("html, body { margin: 0; padding: 0 }\nbody { font: 16px/20px Ahem }\n")
 	sb.WriteString("td { vertical-align: top; padding: 0 }\ntable { box-sizing: content-box }\n")
 	sb.WriteString(`</style></head><body>`)
@@ -1076,6 +1284,99 @@ func layoutCases(src string, baseTags []string, kind string, st tStruct, w *vlib
 		Desc: da})
 }
 
+
+// ---------------------------------------------------------------- paged tables: one fragment per page
+
+func findTables(b bo.Box, out *[]*bo.TableBox) {
+	if t, ok := b.(bo.TableBoxITF); ok {
+		*out = append(*out, t.Table())
+		return
+	}
+	for _, c := range b.Box().Children {
+		findTables(c, out)
+	}
+}
+
+// A table split across pages: AFTER the whole document is laid out, the horizontal geometry of EVERY fragment (the part
+// of the table on one page) is compared with the model run on that fragment's own content box and column widths:
+// ColumnPositions, and PositionX / Width / border-box width of every cell.  One case per document.
+func pagedCases(src string, baseTags []string, kind string, st tStruct, w *vlib.Writer) {
+	_, preTb, ok := preLayoutGrid(src)
+	if !ok {
+		return
+	}
+	if st.ok {
+		baseTags = append(append([]string{}, baseTags...), structTags(st.facts(), st.gs)...)
+	}
+	var pages []*bo.PageBox
+	o := render.GuardTimeout(30e9, func() {
+		pages, _ = render.Layout(src, nil, false, true, fonts)
+	})
+	if o.Status != "ok" {
+		return // crashes / hangs of the whole layout belong to C01
+	}
+	if st.ok {
+		w.Add(gridCase(src, st, preTb, false, -1, baseTags, kind))
+	}
+	var frags []string
+	var desc strings.Builder
+	nfrag, maxCols := 0, 0
+	for pi, page := range pages {
+		var tbs []*bo.TableBox
+		findTables(page, &tbs)
+		for _, tb := range tbs {
+			if tb.Style.GetDirection() != "ltr" {
+				return
+			}
+			var bsx Fl
+			if tb.Style.GetBorderCollapse() != "collapse" {
+				bsx = tb.Style.GetBorderSpacing()[0].Value
+			}
+			x0 := tb.ContentBoxX()
+			all := append([]Fl{x0}, tb.ColumnWidths...)
+			all = append(all, tb.ColumnPositions...)
+			if !finite(all...) {
+				return
+			}
+			fmt.Fprintf(&desc, "page %d (content box x=%v w=%v): table x0=%v widths=%v positions=%v\n", pi, page.ContentBoxX(), page.Width, x0, tb.ColumnWidths, tb.ColumnPositions)
+			var hrows []string
+			for gi, g := range tb.Children {
+				for ri, r := range g.Box().Children {
+					var hin, hobs []string
+					for ci, c := range r.Box().Children {
+						f := c.Box()
+						wv, _ := mf(f.Width)
+						if !finite(f.PositionX, wv, f.BorderWidth()) {
+							return
+						}
+						hin = append(hin, fmt.Sprintf("(HC %s %s %s %s %s %s)", vlib.Z(f.GridX), vlib.Z(f.Colspan), q(f.PaddingLeft.V()), q(f.PaddingRight.V()), q(f.BorderLeftWidth), q(f.BorderRightWidth)))
+						hobs = append(hobs, fmt.Sprintf("(HO %s %s %s %s)", vlib.Z(f.Colspan), q(f.PositionX), q(wv), q(f.BorderWidth())))
+						fmt.Fprintf(&desc, " g%d r%d c%d gridx=%d colspan=%d x=%v w=%v bw=%v\n", gi, ri, ci, f.GridX, f.Colspan, f.PositionX, wv, f.BorderWidth())
+					}
+					hrows = append(hrows, fmt.Sprintf("(HRow [%s] [%s])", strings.Join(hin, "; "), strings.Join(hobs, "; ")))
+				}
+			}
+			frags = append(frags, fmt.Sprintf("(Frag %s %s %s %s [%s])", q(x0), q(bsx), qs(tb.ColumnWidths), qs(tb.ColumnPositions), strings.Join(hrows, "; ")))
+			nfrag++
+			if len(tb.ColumnWidths) > maxCols {
+				maxCols = len(tb.ColumnWidths)
+			}
+		}
+	}
+	if nfrag == 0 {
+		return
+	}
+	tags := append([]string{}, baseTags...)
+	tags = append(tags, fmt.Sprintf("fragments:%d", min(nfrag, 5)))
+	if nfrag > 1 {
+		tags = append(tags, "table-split-across-pages")
+	}
+	sort.Strings(tags)
+	w.Add(vlib.Case{Kind: kind + "-horiz", Tags: tags, Nontrivial: nfrag > 1 && maxCols > 0,
+		Coq:  fmt.Sprintf("CPaged [%s]", strings.Join(frags, "; ")),
+		Desc: map[string]interface{}{"html": src, "pages": len(pages), "fragments": desc.String()}})
+}
+
 // ---------------------------------------------------------------- auto layout (unit level)
 
 // autoTableLayout run on the first table of the document by the hook html/layout/verif_export_c13_auto.go: inputs = the
@@ -1153,6 +1454,10 @@ func main() {
 		tags := []string{"corpus:" + filepath.Base(f)}
 		gs, colW, hasStruct := structureFromHTML(string(b))
 		st := tStruct{hasStruct, gs, colW}
+		if strings.HasPrefix(filepath.Base(f), "paged-") {
+			pagedCases(string(b), tags, "corpus-paged", st, w)
+			continue
+		}
 		if c, ok := fixedCase(string(b), tags, "corpus-fixed", tStruct{}, nil); ok {
 			w.Add(c)
 		}
@@ -1168,8 +1473,16 @@ func main() {
 			if c, ok := fixedCase(t.html(), t.tags, "fixed", t.tstruct(), w); ok {
 				w.Add(c)
 			}
+		} else if i%15 == 1 || i%15 == 7 {
+			t := genPagedTable(r)
+			pagedCases(t.html(), t.tags, "paged", t.tstruct(), w)
 		} else {
-			t := genTable(r, false)
+			var t tableSpec
+			if i%15 == 2 || i%15 == 8 || i%15 == 13 {
+				t = genExcessTable(r)
+			} else {
+				t = genTable(r, false)
+			}
 			layoutCases(t.html(), t.tags, "layout", t.tstruct(), w)
 			if c, ok := autoCase(t.html(), t.tags, "layout"); ok {
 				w.Add(c)
